@@ -100,7 +100,8 @@ func QRstep(H, U Matrix, p, q int, inSitu *InSitu) {
     givensRotation.ApplyHessenbergLeft(H22, c, s, i, i+1, t1, t2)
     givensRotation.ApplyHessenbergLeft(H23, c, s, i, i+1, t1, t2)
     // multiply with Givens matrix (H G)
-    givensRotation.ApplyHessenbergRight(H12, c, s, i, i+1, t1, t2)
+    // H12 is the full block above H22: every row is affected
+    givensRotation.ApplyRight(H12, c, s, i, i+1, t1, t2)
     givensRotation.ApplyHessenbergRight(H22, c, s, i, i+1, t1, t2)
     if u != nil {
       givensRotation.ApplyRight(u, c, s, i, i+1, t1, t2)
